@@ -17,6 +17,7 @@ import (
 	"testing"
 	"time"
 
+	"github.com/AdguardTeam/AdGuardHome/internal/filtering"
 	"github.com/AdguardTeam/AdGuardHome/internal/vfkit"
 )
 
@@ -35,20 +36,28 @@ func TestVFC07ScanBudget(t *testing.T) {
 	}
 	w := bufio.NewWriter(f)
 	ts := time.Date(2021, 3, 1, 0, 0, 0, 0, time.UTC)
+	blockedNext := false
 	write := func(host string) {
 		ts = ts.Add(1500 * time.Millisecond)
-		b, merr := json.Marshal(&logEntry{
+		e := &logEntry{
 			Time: ts, QHost: host, QType: "A", QClass: "IN", ClientProto: "", IP: net.IP{192, 0, 2, 1}, Elapsed: time.Millisecond,
-		})
+		}
+		if blockedNext {
+			e.Result = filtering.Result{IsFiltered: true, Reason: filtering.FilteredBlockList, Rules: []*filtering.ResultRule{{Text: "||needle.example^", FilterListID: 1}}}
+		}
+		b, merr := json.Marshal(e)
 		if merr != nil {
 			t.Fatalf("VERIF-INCONCLUSIVE marshal: %v", merr)
 		}
 		_, _ = w.Write(b)
 		_ = w.WriteByte('\n')
 	}
+	// the rare records are also the only blocked ones
+	blockedNext = true
 	for i := 0; i < 3; i++ {
 		write(fmt.Sprintf("rare-%d.needle.example", i))
 	}
+	blockedNext = false
 	for i := 0; i < common; i++ {
 		write(fmt.Sprintf("host-%d.common.test", i%500))
 	}
@@ -57,12 +66,16 @@ func TestVFC07ScanBudget(t *testing.T) {
 	}
 	_ = f.Close()
 
+	status := ""
 	page := func(search string, limit int) (total int, requests int) {
 		cursor := ""
 		for requests = 0; requests < 200; requests++ {
 			q := url.Values{"limit": {fmt.Sprint(limit)}}
 			if search != "" {
 				q.Set("search", search)
+			}
+			if status != "" {
+				q.Set("response_status", status)
 			}
 			if cursor != "" {
 				q.Set("older_than", cursor)
@@ -99,4 +112,36 @@ func TestVFC07ScanBudget(t *testing.T) {
 		t.Fatalf("unfiltered cursor paging over %d file records returned %d entries in %d requests", common+3, got, reqs)
 	}
 	st.Sample("scan_budget", map[string]any{"file_records": common + 3, "sparse_matches": 3, "requests_unfiltered": reqs})
+
+	// A host is put on the ignore list afterwards: its records are no longer
+	// returned, and paging must still reach everything else -- also when the
+	// last record a request could scan within its budget is one of them (with
+	// a limit above the budget the 50000th newest record ends the scan; it is
+	// host-0's).
+	code, text := s.post("PUT /control/querylog/config/update", map[string]any{
+		"enabled": true, "anonymize_client_ip": false, "interval": 86400000, "ignored": []string{"host-0.common.test", "host-1.common.test", "host-499.common.test"},
+	})
+	if code != 200 {
+		t.Fatalf("VERIF-INCONCLUSIVE config update: %d %s", code, text)
+	}
+	// a status filter: every record has to be decoded to be judged, the three
+	// blocked ones are the oldest
+	status = "blocked"
+	got, reqs = page("", 10)
+	st.Eval()
+	st.Class("scan_budget:status_filter_budget_ends_on_ignored_record")
+	st.Nontrivial("scan_budget|ignored_at_budget_end|status")
+	if got != 3 {
+		t.Fatalf("response_status=blocked (only the 3 oldest of %d file records are blocked) with hosts ignored afterwards, paged by cursor: %d entries in %d requests, want 3: "+
+			"the scan budget of a request ended on a record of an ignored host and no cursor was handed out", common+3, got, reqs)
+	}
+	status = ""
+	got, reqs = page("", 60000)
+	st.Eval()
+	st.Class("scan_budget:budget_ends_on_ignored_record")
+	st.Nontrivial("scan_budget|ignored_at_budget_end")
+	if want := common + 3 - 3*(common/500); got != want {
+		t.Fatalf("cursor paging (limit above the scan budget) with host-0 ignored afterwards returned %d entries in %d requests, want %d: "+
+			"the records older than the scan budget of the first request were never reached", got, reqs, want)
+	}
 }
